@@ -1248,7 +1248,19 @@ class ValueObject(Value):
         return self.value == other.value
 
     def __lt__(self, other):
-        return str(self) < str(other)
+        mine, theirs = str(self), str(other)
+        if mine == theirs and isinstance(other, ValueObject):
+            # objects that print alike (members with a leading underscore
+            # are not printed, a _str_ member may show anything) are ordered
+            # by all their members, so that unequal objects never tie
+            return self.memberKey() < other.memberKey()
+        return mine < theirs
+
+    def memberKey(self):
+        return sorted(
+            (key, "" if value.isObject() else str(value))
+            for key, value in self.value.items()
+        )
 
     def __repr__(self):
         fn = self.resolveItem("_str_")
